@@ -22,8 +22,8 @@ PROPERTY = "C17"
 LEVEL = "exploration"
 
 NAMES = ["Alpha", "Beta", "Gamma"]
-KINDS = ["int", "opt-int", "enum", "opt-enum", "list-int", "set-str", "private", "ref", "opt-ref", "list-ref", "set-ref", "type-ref", "str-forward-ref", "datetime"]
-REFS = ("ref", "opt-ref", "list-ref", "set-ref", "type-ref", "str-forward-ref")
+KINDS = ["int", "opt-int", "enum", "opt-enum", "list-int", "set-str", "private", "ref", "opt-ref", "list-ref", "set-ref", "type-ref", "str-forward-ref", "datetime", "opt-nested-fwd", "list-nested-fwd", "type-nested-fwd"]
+REFS = ("ref", "opt-ref", "list-ref", "set-ref", "type-ref", "str-forward-ref", "opt-nested-fwd", "list-nested-fwd", "type-nested-fwd")
 _counter = [0]
 
 
@@ -42,6 +42,8 @@ def build(spec):
             ann = {
                 "int": int, "opt-int": Optional[int], "enum": Shade, "opt-enum": Optional[Shade], "list-int": List[int], "set-str": Set[str], "private": int, "datetime": datetime,
                 "ref": t, "opt-ref": "Optional[%s]" % t, "list-ref": "List[%s]" % t, "set-ref": "Set[%s]" % t, "type-ref": "Type[%s]" % t, "str-forward-ref": t,
+                # a quoted forward reference nested inside a wrapper (the annotation object is Optional[ForwardRef('T')], not a string)
+                "opt-nested-fwd": Optional[t] if t else None, "list-nested-fwd": List[t] if t else None, "type-nested-fwd": Type[t] if t else None,
             }[kind]
             fs.append((("_" + fname) if kind == "private" else fname, ann, field(default=None)))
         bases = (classes[base],) if base >= 0 else ()
@@ -90,6 +92,19 @@ def snapshot(d: ClassDiagram):
     edges = sorted((type(e).__name__, e.source.clazz.__name__, e.target.clazz.__name__, getattr(getattr(e, "field", None), "name", "")) for e in g.edges())
     fields = sorted((w.clazz.__name__, f.name) for w in g.nodes() for f in w.fields)
     return nodes, edges, fields
+
+
+def query_snapshot(d: ClassDiagram):
+    """what the diagram's query API answers (these answers are cached by the diagram)"""
+    out = []
+    for w in sorted(d.wrapped_classes, key=lambda w: w.clazz.__name__):
+        c = w.clazz
+        out.append((c.__name__,
+                    sorted((type(e).__name__, e.target.clazz.__name__, getattr(getattr(e, "field", None), "name", "")) for e in d.get_out_edges(c)),
+                    sorted(n.clazz.__name__ for n in d.get_outgoing_neighbors_with_relation_type(c, Association)),
+                    sorted(n.clazz.__name__ for n in d.get_incoming_neighbors_with_relation_type(c, Association)),
+                    sorted(n.clazz.__name__ for n in d.get_neighbors_with_relation_type(c, Inheritance))))
+    return out
 
 
 VIEW_OPS = ["subdiagram(True)", "subdiagram(False)", "associations", "inheritance_relations", "parent_map", "get_out_edges", "assoc_keys", "all_ancestors"]
@@ -182,8 +197,16 @@ def case(K, kinds1, kinds2, fixed, n_views):
                 # (what the derived diagram contains is not part of the property; only that it is a different object that
                 # does not share state with its source)
                 v["sub-diagram-is-a-new-diagram"] = v.get("sub-diagram-is-a-new-diagram", True) and (r is not d) and (r._dependency_graph is not d._dependency_graph)
+                try:
+                    query_snapshot(r)  # reading the derived diagram is a view operation too
+                except Exception as e:
+                    ctx.observe("querying the sub-diagram raised %s" % type(e).__name__)
+                    v["views-do-not-raise"] = False
+                    return v
         ctx.observe(ops)
         v["views-leave-the-diagram-intact"] = snapshot(d) == before
+        # ... including what its query API answers: the same as a diagram built anew from the same classes
+        v["views-leave-the-diagram's-answers-intact"] = query_snapshot(d) == query_snapshot(ClassDiagram([classes[i] for i in order]))
         return v
 
     return h
@@ -258,7 +281,7 @@ def cases(tier, seed):
     cs.append(Case("generic base chain (5 classes, every order)", special_case(build_generic_chain, 5, 1), validate=0, timeout=900))
     cs.append(Case("same class name in two modules (4 classes, every order)", special_case(build_same_name_in_two_modules, 4, 1), validate=0, timeout=900))
     scal = ["int", "opt-int", "enum", "list-int", "private"] if tier == "quick" else [k for k in KINDS if k not in REFS]
-    refs = ["ref", "opt-ref", "list-ref", "type-ref"] if tier == "quick" else list(REFS)
+    refs = ["ref", "opt-ref", "list-ref", "type-ref", "opt-nested-fwd"] if tier == "quick" else list(REFS)
     for k in KINDS:
         cs.append(Case("K=1|f:%s" % k, case(1, [k], ["int", "opt-ref", "list-ref"], {}, 1), validate=0, timeout=600))
     for base1 in (0, 1):
@@ -278,7 +301,7 @@ def describe(tier):
     return dict(
         rule="sets of dataclasses synthesised from bounded symbolic specifications (K <= 2 quick / 3 thorough classes, base in {none, earlier class}, fields with annotations from "
         "{int, Optional[int], Enum, Optional[Enum], List[int], Set[str], datetime, _private, a class, Optional[class], List/Set[class], Type[class], forward references as "
-        "strings}, every reference target incl. self), plus a chain of plain subclasses below a parametrised generic base and two modules defining classes of the same name with string annotations, handed to ClassDiagram in every order; nodes, inheritance edges, association edges and the classification predicates "
+        "strings and quoted forward references nested inside Optional / List / Type}, every reference target incl. self), plus a chain of plain subclasses below a parametrised generic base and two modules defining classes of the same name with string annotations, handed to ClassDiagram in every order; nodes, inheritance edges, association edges and the classification predicates "
         "of every field are compared with an independent typing.get_type_hints analysis; then a bounded symbolic sequence of read-only operations (both sub-diagram "
         "derivations, associations, inheritance_relations, parent_map, get_out_edges, association keys, all_ancestors) with a full snapshot (nodes, edges, fields) "
         "before/after. distinct = distinct (specification, order, view sequence); non-trivial = every path builds a diagram",
